@@ -23,10 +23,10 @@ ASSUMPTIONS = ["what serde 1.0.229's derived visitors and Content buffer do (Mod
 
 KEYS = """bool u8 u16 u32 u64 usize i8 i16 i32 i64 isize f32 f64 char string strref bytebuf bytesref unit disp any ign
 US NT NTO TS P2 Prims WithOpt WithOpt2 Nested Wide Ext Ext2 Ext1 ExtU InnerU InnerC InnerUS InnerE Int IntF Adj Unt UntF
-Fl Fl2 FlM FlU FlF FlFC FlK FlMK FlMC InnerB IntB AdjB UntB FlB Hr arr4(u8) SkipS SkipE opt(SkipS) seq(SkipS)
+Fl Fl2 FlM FlU FlF FlFC FlK FlMK FlMC InnerB IntB AdjB UntB FlB Hr arr4(u8) SkipS SkipE opt(SkipS) seq(SkipS) HandS ExtK FlEK MapEK
 opt(u8) opt(string) opt(unit) opt(opt(u8)) opt(NTO) opt(P2) opt(Ext) opt(US)
 seq(u8) seq(opt(u16)) seq(P2) seq(Ext) seq(seq(i8)) seq(unit) seq(US) seq(Unt) seq(Int) seq(Fl) seq(Adj) seq(string) seq(bytebuf) seq(char)
-iseq(u8) iseq(P2) iseq(iseq(u8)) iseq(opt(string))
+iseq(u8) iseq(P2) iseq(iseq(u8)) iseq(opt(string)) cseq(u8) cseq(P2) cseq(cseq(u8)) cmap(u8,bool) cmap(string,cseq(u8))
 tup(u8) tup(u8,string) tup(u64,i64,f32,f64,char) tup(P2,Ext,unit) tup(strref,bytesref)
 arr0(u8) arr3(u16) arr2(P2) arr24(bool)
 bmap(u8,string) bmap(string,u8) bmap(tup(u8,u8),bool) bmap(char,i8) bmap(i16,P2) bmap(string,Adj) bmap(bool,seq(u8)) bmap(u64,unit)
